@@ -75,16 +75,12 @@ def ops : List (String × Op) := [
       pure (showRS showStr (do let l ← buildOn p raw; extract p a l))),
   ("revstrand", do
       let a ← pText; let p ← pStr; let raw ← pRawLoc
-      pure (showRS showStr (do let l ← buildOn p raw; let r ← reverseStrand l; extract p a r))),
+      pure (showRS showStr (do let l ← buildOn p raw; revStrandExtract p a l))),
   ("split", do
       let a ← pText; let p ← pStr; let raw ← pRawLoc; let k ← pInt
       pure (showRS (fun (x : Str × Str) => s!"{showStr x.1} {showStr x.2}") (do
         let l ← buildOn p raw
-        let m1 ← relInterval l 0 k .plus
-        let m2 ← relInterval l k (locLen l) .plus
-        let s1 ← extract p a m1
-        let s2 ← extract p a m2
-        pure (s1, s2)))),
+        splitExtract p a l k))),
   ("seqprog", do
       let a ← pText; let p ← pStr; let raw ← pRawLoc; let prog ← pList pStep
       pure (showRS id (do let x ← objOf a p raw prog; observe x))),
